@@ -7,7 +7,8 @@ import sys
 
 sid, prop, needs, what, caught = sys.argv[1:6]
 missed = sys.argv[6] if len(sys.argv) > 6 else ""
-log = open("/tmp/seed/%s.confirm.log" % sid).read()
+root = os.environ.get("SEED_ROOT", "/tmp/seed")
+log = open("%s/%s.confirm.log" % (root, os.environ.get("SRC_ID", sid))).read()
 d = "/verif/seeded/%s" % sid
 meta = {
     "id": sid,
